@@ -1339,7 +1339,7 @@ def m_option_map(eng, st, args, info):
         if v == "None":
             out.append((s, OPT_NONE))
         else:
-            out.extend((s2, _opt_some(r)) for s2, r in eng.call_value(s, f, [payload], info["depth"]))
+            out.extend((s2, r if r[0] in ("panic", "loopback") else _opt_some(r)) for s2, r in eng.call_value(s, f, [payload], info["depth"]))
     return out
 
 
@@ -1384,7 +1384,7 @@ def m_bool_then(eng, st, args, info):
             cases.append((s, bool(v)))
     for s, truth in cases:
         if truth:
-            outs.extend((s2, _opt_some(r)) for s2, r in eng.call_value(s, f, [], info["depth"]))
+            outs.extend((s2, r if r[0] in ("panic", "loopback") else _opt_some(r)) for s2, r in eng.call_value(s, f, [], info["depth"]))
         else:
             outs.append((s, OPT_NONE))
     return outs
